@@ -169,6 +169,8 @@ def fifo_with_injection(prog: dict, at_step: int, what: str, times: int = 1) -> 
                             run.send_cancel()
                         elif what.startswith("region:"):
                             run.send_cancel_region(what[7:])
+                        elif what.startswith("add:"):        # add:<stage> - AddMultiInstance for that stage
+                            run.send_add_instance(what[4:])
                         elif what.startswith("sweepc:"):     # sweepc:<n1>:<n2> - a sweep concurrent with n1 + n2 deliveries
                             _, n1, n2 = what.split(":")
                             run.sweep_concurrent(int(n1), int(n2))
